@@ -1,8 +1,9 @@
 """Generators for Gen/Num.lean (C01) and Gen/Logic.lean (C02)."""
 from __future__ import annotations
 import ast
-from .py2lean import (TranslationError, translate_range_decorator, translate_int_class,
+from .py2lean import (TranslationError,
                       translate_logic_fn, find_func, find_class, lean_str, lean_list)
+from .py2lean_int import translate_range_decorator, translate_int_class   # int dialect, 2nd edition (C01)
 from .common import parse, HEADER, exc_names, lean_exc
 
 
@@ -34,6 +35,55 @@ def gen_num() -> str:
     return "\n".join(out)
 
 
+def _resolve_exc_names(mod: ast.Module, node) -> list:
+    """classes of an `except` clause; a module-level constant bound to a tuple of classes is followed"""
+    names = []
+    for n in exc_names(node):
+        tup = None
+        for st in mod.body:
+            if (isinstance(st, ast.Assign) and len(st.targets) == 1 and isinstance(st.targets[0], ast.Name)
+                    and st.targets[0].id == n and isinstance(st.value, ast.Tuple)):
+                tup = st.value
+        names += [ast.unparse(e) for e in tup.elts] if tup is not None else [n]
+    return names
+
+
+def _handlers_of(mod: ast.Module, cls: ast.ClassDef, f: ast.FunctionDef) -> list:
+    """exception classes of every `except` clause in a rule method, following one level of `self.<helper>(...)`
+    calls into methods defined in the same class (an extracted helper keeps its handlers)"""
+    bodies = [f]
+    for node in ast.walk(f):
+        if (isinstance(node, ast.Call) and isinstance(node.func, ast.Attribute) and isinstance(node.func.value, ast.Name)
+                and node.func.value.id == "self"):
+            for m in cls.body:
+                if isinstance(m, ast.FunctionDef) and m.name == node.func.attr and m is not f and m not in bodies:
+                    bodies.append(m)
+    hs = []
+    for b in bodies:
+        for node in ast.walk(b):
+            if isinstance(node, ast.Try):
+                for h in node.handlers:
+                    for c in _resolve_exc_names(mod, h.type):
+                        if c not in hs:
+                            hs.append(c)
+    return hs
+
+
+def _reducer_wrapped(fn: ast.FunctionDef, op: str) -> bool:
+    """every reference to celtypes.<op> inside macro_all/macro_exists is the argument of
+    `eval_error(<message>, TypeError)(...)` (so a TypeError of the reducer becomes an error VALUE), and there is one"""
+    def is_op(e):
+        return (isinstance(e, ast.Attribute) and e.attr == op) or (isinstance(e, ast.Name) and e.id == op)
+    wrapped = set()
+    for node in ast.walk(fn):
+        if (isinstance(node, ast.Call) and isinstance(node.func, ast.Call) and isinstance(node.func.func, ast.Name)
+                and node.func.func.id == "eval_error" and len(node.func.args) == 2 and len(node.args) == 1
+                and "TypeError" in exc_names(node.func.args[1]) and is_op(node.args[0])):
+            wrapped.add(id(node.args[0]))
+    refs = [n for n in ast.walk(fn) if is_op(n)]
+    return bool(refs) and all(id(n) in wrapped for n in refs)
+
+
 def gen_logic() -> str:
     m = parse("src/celpy/celtypes.py")
     ev = parse("src/celpy/evaluation.py")
@@ -46,23 +96,17 @@ def gen_logic() -> str:
     tries = [s for s in res.body if isinstance(s, ast.Try)]
     if len(tries) != 1 or len(tries[0].handlers) != 1:
         raise TranslationError("result(): expected exactly one try/except")
-    caught = exc_names(tries[0].handlers[0].type)
+    caught = _resolve_exc_names(ev, tries[0].handlers[0].type)
     out.append("/-- exception classes caught by `celpy.evaluation.result()` -/")
     out.append("def resultCaught : List Exc := " + lean_list([lean_exc(c) for c in caught]) + "\n")
     # reducers of macro_all / macro_exists: is logical_and wrapped by eval_error(TypeError)?
     for fn, op in (("macro_all", "logical_and"), ("macro_exists", "logical_or")):
-        src = ast.unparse(find_func(ev.body, fn))
-        wrapped = f"eval_error('no such overload', TypeError)(celpy.celtypes.{op})" in src
+        wrapped = _reducer_wrapped(find_func(ev.body, fn), op)
         out.append(f"def {fn}_reducer_catches_TypeError : Bool := {'true' if wrapped else 'false'}")
     # interpreter handlers of the logical rules
     evcls = find_class(ev, "Evaluator")
     for rule in ("expr", "conditionalor", "conditionaland", "unary"):
-        f = find_func(evcls.body, rule)
-        hs = []
-        for node in ast.walk(f):
-            if isinstance(node, ast.Try):
-                for h in node.handlers:
-                    hs += exc_names(h.type)
+        hs = _handlers_of(ev, evcls, find_func(evcls.body, rule))
         out.append(f"def handlers_{rule} : List Exc := " + lean_list([lean_exc(c) for c in hs]))
     out.append("\nend Cel.Gen\n")
     return "\n".join(out)
